@@ -2,6 +2,7 @@
 From Coq Require Import Bool ZArith List.
 From K Require Import Lib.Types Model.Machine Model.Bus Model.Addressing Model.Alu Model.Exec Model.Periph Spec.MemMap Spec.ISA
   Proofs.RegProofs Proofs.MemProofs Proofs.FrameProofs Proofs.StackProofs Proofs.IrqProofs.
+From K Require Import Model.Run Spec.Domains Proofs.RefStep Proofs.RunPlain Proofs.RunIrq Proofs.ExampleState.
 Import ListNotations.
 Open Scope Z_scope.
 
@@ -50,9 +51,46 @@ Proof. exact entry_rte_inverse_proof. Qed.
 Example c10_example : requests_of [EReq 36; EBnd; EStep; EReq 39] = [36; 39].
 Proof. reflexivity. Qed.
 
+(* ---- the boundary test of run() IS the reference's acceptance rule, and the loop with requests pending is the iterated
+   reference ----
+   [accept_boundary s]: the reference rule (Spec/Domains.boundary_ref: nothing while I is set; otherwise the oldest pending request, if
+   its entry is inside the domain, is accepted through the reference's exception entry) applied to the model's own queue.
+   For every well-formed state the model's try_interrupt does exactly that, leaves a well-formed state and does not touch the
+   timer. *)
+Theorem boundary_is_the_reference_acceptance :
+  forall s s1, state_ok s -> accept_boundary s = Some s1 ->
+    try_interrupt s = Ok tt s1 /\ state_ok s1 /\ b_tmr (cbus s1) = b_tmr (cbus s).
+Proof. exact try_interrupt_is_boundary. Qed.
+
+(* one iteration (timer stopped, no control line): boundary, then the reference instruction with the reference's charge and the
+   accounting; and any number of iterations: requests pending at the start are delivered one by one, oldest first, each at the
+   first boundary at which I is clear, and execution in between is the reference's *)
+Theorem run_iteration_with_requests :
+  forall s sync s4 sync2,
+    state_ok s -> timer_stopped s -> irq_iter s sync = Some (s4, sync2) ->
+    iter_insn s sync false = (if pc s4 =? exit_addr s4 then Finished s4 else Continue (mkR (mkCtl s4 false false) sync2))
+    /\ state_ok s4 /\ timer_stopped s4.
+Proof. exact iter_insn_irq. Qed.
+
+Theorem run_loop_with_requests_is_the_iterated_reference :
+  forall fuel s sync sf,
+    state_ok s -> timer_stopped s -> irq_run fuel s sync = Some sf ->
+    run_iters fuel nil (mkR (mkCtl s false false) sync) = Some (Finished sf) /\ state_ok sf.
+Proof. exact run_iters_irq. Qed.
+
+(* non-vacuity: request 36 pending with I clear; its handler (vector H'FFC000) is entered at the first boundary, its first
+   instruction executed, and the run ends at the exit address H'FFC002 *)
+Example c10_run_example :
+  state_ok (ex_state_irq 0xffc002) /\ timer_stopped (ex_state_irq 0xffc002) /\
+  exists sf, irq_run 1 (ex_state_irq 0xffc002) 0 = Some sf /\ irq sf = nil /\ reg32 sf 7 = 0xfffefc.
+Proof. split; [apply ex_state_irq_ok|split; [reflexivity|eexists; split; [vm_compute; reflexivity|split; reflexivity]]]. Qed.
+
 Print Assumptions instructions_keep_requests.
 Print Assumptions accept_only_unmasked.
 Print Assumptions pending_while_masked.
 Print Assumptions fifo_exactly_once.
 Print Assumptions interrupt_refines.
 Print Assumptions entry_return_transparent.
+Print Assumptions boundary_is_the_reference_acceptance.
+Print Assumptions run_iteration_with_requests.
+Print Assumptions run_loop_with_requests_is_the_iterated_reference.
